@@ -598,3 +598,286 @@ Proof.
   { apply filter_In. split; [|exact Hp]. apply filter_In. split; assumption. }
   rewrite Hrows in Hin. destruct Hin.
 Qed.
+
+(* ------------------------------------------------------------------------------------------ *)
+(* exactness: the lost rows are precisely what breaks the commutation                          *)
+(* ------------------------------------------------------------------------------------------ *)
+Lemma length_filter_le {A} (f g : A -> bool) l :
+  (forall x, In x l -> f x = true -> g x = true) -> (length (filter f l) <= length (filter g l))%nat.
+Proof.
+  induction l as [|x l IH]; intros H; cbn; [lia|].
+  assert (IH' : (length (filter f l) <= length (filter g l))%nat).
+  { apply IH. intros y Hy. apply H. right. exact Hy. }
+  destruct (f x) eqn:Ef.
+  - rewrite (H x (or_introl eq_refl) Ef). cbn. lia.
+  - destruct (g x); cbn; lia.
+Qed.
+
+Lemma length_filter_lt {A} (f g : A -> bool) l :
+  (forall x, In x l -> f x = true -> g x = true) ->
+  (exists x, In x l /\ g x = true /\ f x = false) ->
+  (length (filter f l) < length (filter g l))%nat.
+Proof.
+  induction l as [|x l IH]; intros H (y & Hy & Hg & Hf); [destruct Hy|].
+  assert (Hle : (length (filter f l) <= length (filter g l))%nat).
+  { apply length_filter_le. intros z Hz. apply H. right. exact Hz. }
+  cbn. destruct Hy as [->|Hy].
+  - rewrite Hg, Hf. cbn. lia.
+  - assert (Hlt : (length (filter f l) < length (filter g l))%nat).
+    { apply IH; [intros z Hz; apply H; right; exact Hz|]. exists y. auto. }
+    destruct (f x) eqn:Ef.
+    + rewrite (H x (or_introl eq_refl) Ef). cbn. lia.
+    + destruct (g x); cbn; lia.
+Qed.
+
+Lemma length_concat_le {A B} (F G : A -> list B) cs :
+  (forall c, In c cs -> (length (F c) <= length (G c))%nat) ->
+  (length (concat (map F cs)) <= length (concat (map G cs)))%nat.
+Proof.
+  induction cs as [|c rest IH]; intros H; cbn; [lia|]. rewrite !app_length.
+  specialize (H c (or_introl eq_refl)) as Hc.
+  assert ((length (concat (map F rest)) <= length (concat (map G rest)))%nat).
+  { apply IH. intros d Hd. apply H. right. exact Hd. }
+  lia.
+Qed.
+
+Lemma length_concat_lt {A B} (F G : A -> list B) cs c0 :
+  (forall c, In c cs -> (length (F c) <= length (G c))%nat) ->
+  In c0 cs -> (length (F c0) < length (G c0))%nat ->
+  (length (concat (map F cs)) < length (concat (map G cs)))%nat.
+Proof.
+  induction cs as [|c rest IH]; intros H Hin Hlt; [destruct Hin|]. cbn. rewrite !app_length.
+  assert (Hrest : (length (concat (map F rest)) <= length (concat (map G rest)))%nat).
+  { apply length_concat_le. intros d Hd. apply H. right. exact Hd. }
+  destruct Hin as [->|Hin].
+  - lia.
+  - specialize (H c (or_introl eq_refl)) as Hc.
+    assert ((length (concat (map F rest)) < length (concat (map G rest)))%nat).
+    { apply IH; auto. intros d Hd. apply H. right. exact Hd. }
+    lia.
+Qed.
+
+Lemma lostm_selected m t0 t1 c r : lostm m t0 t1 c r = true -> tk m t0 t1 r = true.
+Proof. destruct m; cbn [lostm]; try discriminate. apply lost_is_selected. Qed.
+
+(* a lost row that satisfies the row predicate makes the result strictly shorter *)
+Lemma lost_row_shortens m t0 t1 p cs c0 r0 :
+  In c0 cs -> In r0 (crows c0) -> lostm m t0 t1 c0 r0 = true -> p r0 = true ->
+  (length (filter p (filter (tk m t0 t1) (visible_rows m t0 t1 cs))) <
+   length (filter p (filter (tk m t0 t1) (all_rows cs))))%nat.
+Proof.
+  intros Hc Hr Hl Hp. unfold visible_rows, all_rows.
+  rewrite !flat_map_concat, !filter_concat, !map_map.
+  apply length_concat_lt with (c0 := c0); [|exact Hc|].
+  - intros c _. rewrite <- !filter_andb. apply length_filter_le.
+    intros x _ Hx. unfold notlost in Hx. destruct (lostm m t0 t1 c x); cbn in Hx; [discriminate|exact Hx].
+  - rewrite <- !filter_andb. apply length_filter_lt.
+    + intros x _ Hx. unfold notlost in Hx. destruct (lostm m t0 t1 c0 x); cbn in Hx; [discriminate|exact Hx].
+    + exists r0. split; [exact Hr|]. rewrite (lostm_selected _ _ _ _ _ Hl), Hp. unfold notlost. rewrite Hl.
+      split; reflexivity.
+Qed.
+
+Theorem selection_commutes_iff cs t0 t1 m p keep drop fs :
+  time_mode m -> Forall wf cs -> contig cs ->
+  forallb (pruned t0 t1) cs = false -> sel_head keep drop = Ok fs ->
+  (get_array_abs cs (Some (t0, t1)) m p keep drop = select_full cs (Some (t0, t1)) m p keep drop
+   <-> no_lost_row m t0 t1 p cs).
+Proof.
+  intros Hm HF HC Hov Hh. split.
+  - intros Heq c r Hc Hr. destruct (lostm m t0 t1 c r && p r) eqn:E; [exfalso|reflexivity].
+    apply andb_true_iff in E as [El Ep].
+    rewrite selection_characterised in Heq by assumption. rewrite Hov in Heq.
+    unfold select_full in Heq. rewrite !apply_selection_rows_unfold in Heq by exact Hm.
+    rewrite Hh in Heq. cbn [res_bind] in Heq.
+    assert (Hlen : length (map (proj fs) (filter p (filter (tk m t0 t1) (visible_rows m t0 t1 cs)))) =
+                   length (map (proj fs) (filter p (filter (tk m t0 t1) (all_rows cs))))) by congruence.
+    rewrite !map_length in Hlen.
+    pose proof (lost_row_shortens m t0 t1 p cs c r Hc Hr El Ep). lia.
+  - intros HN. rewrite selection_commutes_partial by assumption. rewrite Hov. reflexivity.
+Qed.
+
+(* ------------------------------------------------------------------------------------------ *)
+(* the three ways to give the range                                                            *)
+(* ------------------------------------------------------------------------------------------ *)
+Theorem get_array1_characterised md cs rq p t0 t1 :
+  to_absolute md cs (rq_time_range rq) (rq_seconds_range rq) (rq_time_within rq) = Ok (Some (t0, t1)) ->
+  time_mode (rq_mode rq) -> Forall wf cs -> contig cs ->
+  get_array1 md cs rq p =
+  if forallb (pruned t0 t1) cs then Err E_NO_CHUNK
+  else apply_selection_rows (Some (t0, t1)) (rq_mode rq) p (rq_keep rq) (rq_drop rq)
+                            (visible_rows (rq_mode rq) t0 t1 cs).
+Proof.
+  intros Habs Hm HF HC. unfold get_array1. rewrite Habs. cbn [res_bind].
+  apply selection_characterised; assumption.
+Qed.
+
+Lemma to_absolute_time_range md cs t0 t1 :
+  to_absolute md cs (Some (t0, t1)) None None = Ok (Some (t0, t1)).
+Proof. reflexivity. Qed.
+
+Lemma to_absolute_seconds_range md cs a b :
+  to_absolute md cs None (Some (a, b)) None =
+  Ok (Some (run_start md cs + NS * a, run_start md cs + NS * b)).
+Proof. reflexivity. Qed.
+
+Lemma to_absolute_time_within md cs r :
+  to_absolute md cs None None (Some r) = Ok (Some (rt r, re r)).
+Proof. reflexivity. Qed.
+
+(* the "pass no more than one" check only fires when all three are given; otherwise
+   time_within wins over seconds_range, which wins over time_range *)
+Lemma to_absolute_precedence md cs tr sr r :
+  (tr = None \/ sr = None) -> to_absolute md cs tr sr (Some r) = Ok (Some (rt r, re r)).
+Proof. intros H; destruct tr as [[? ?]|], sr as [[? ?]|]; try reflexivity; destruct H; discriminate. Qed.
+
+Lemma to_absolute_three_is_error md cs tr sr r :
+  to_absolute md cs (Some tr) (Some sr) (Some r) = Err E_MANY_RANGES.
+Proof. reflexivity. Qed.
+
+(* ------------------------------------------------------------------------------------------ *)
+(* a partial request never creates savers                                                      *)
+(* ------------------------------------------------------------------------------------------ *)
+Lemma creates_saver_partial cf pf t b :
+  is_partial pf = true -> creates_saver cf pf t = Ok b -> b = false.
+Proof.
+  unfold is_partial, creates_saver. intros Hp H.
+  destruct (negb (ti_stored t) && pf_time_range pf && (ti_save_when t >? SAVEWHEN_EXPLICIT)); [discriminate|].
+  destruct (ti_temp t); [congruence|]. destruct (ti_stored t); [congruence|].
+  destruct (cf_superrun_nowrite cf); [congruence|].
+  destruct (target_should_be_saved t) as [s|e]; cbn [res_bind] in H; [|discriminate].
+  destruct (negb s); [congruence|].
+  destruct (pf_time_range pf); [congruence|]. destruct (pf_selection pf); [congruence|].
+  destruct (pf_keep pf); cbn in *; [congruence|]. destruct (pf_drop pf); cbn in *; [congruence|discriminate].
+Qed.
+
+Theorem partial_request_never_saves cf pf ts l :
+  is_partial pf = true -> savers_of cf pf ts = Ok l -> l = [].
+Proof.
+  intros Hp. revert l. induction ts as [|[name t] rest IH]; intros l H; cbn in H; [congruence|].
+  destruct (creates_saver cf pf t) as [b|e] eqn:Eb; cbn [res_bind] in H; [|discriminate].
+  destruct (savers_of cf pf rest) as [r|e] eqn:Er; cbn [res_bind] in H; [|discriminate].
+  rewrite (creates_saver_partial cf pf t b Hp Eb) in H. rewrite (IH r eq_refl) in H. congruence.
+Qed.
+
+(* conversely: a full request on a plain context does save what policy asks for (non-vacuity) *)
+Example full_request_saves :
+  savers_of (mkflags false false false) (mkpartial false false false false)
+            [(11, mktarget SAVEWHEN_ALWAYS true false false false); (1, mktarget SAVEWHEN_ALWAYS false false false true)]
+  = Ok [11].
+Proof. reflexivity. Qed.
+Example partial_request_saves_nothing :
+  savers_of (mkflags false false false) (mkpartial false true false false)
+            [(11, mktarget SAVEWHEN_ALWAYS true false false false); (1, mktarget SAVEWHEN_ALWAYS false false false true)]
+  = Ok [].
+Proof. reflexivity. Qed.
+
+(* ------------------------------------------------------------------------------------------ *)
+(* witnesses                                                                                   *)
+(* ------------------------------------------------------------------------------------------ *)
+Ltac wf_tac := unfold wf; cbn; repeat split; try lia; repeat constructor; cbn; lia.
+
+(* rows [1,3) [4,6) [10,10) [12,15); the zero-length row stored at the start of the second chunk *)
+Definition w_late : list chunk :=
+  [mkchunk 0 10 [mkrow 1 3 0 0; mkrow 4 6 1 1] 1 1 (Some 7) 4;
+   mkchunk 10 20 [mkrow 10 10 2 0; mkrow 12 15 3 1] 1 1 (Some 7) 4].
+(* the same rows, the zero-length row stored at the end of the first chunk *)
+Definition w_early : list chunk :=
+  [mkchunk 0 10 [mkrow 1 3 0 0; mkrow 4 6 1 1; mkrow 10 10 2 0] 1 1 (Some 7) 4;
+   mkchunk 10 20 [mkrow 12 15 3 1] 1 1 (Some 7) 4].
+
+Lemma w_late_ok : Forall wf w_late /\ contig w_late.
+Proof. split; [repeat constructor; wf_tac|cbn; auto]. Qed.
+Lemma w_early_ok : Forall wf w_early /\ contig w_early.
+Proof. split; [repeat constructor; wf_tac|cbn; auto]. Qed.
+
+Definition full_selection_commutes : Prop :=
+  forall cs t0 t1 m p keep drop,
+    time_mode m -> Forall wf cs -> contig cs ->
+    get_array_abs cs (Some (t0, t1)) m p keep drop =
+    if forallb (pruned t0 t1) cs then Err E_NO_CHUNK
+    else select_full cs (Some (t0, t1)) m p keep drop.
+
+Theorem selection_commutes_refuted : ~ full_selection_commutes.
+Proof.
+  intros H. specialize (H w_late 0 10 FC (fun _ => true) None None (or_introl eq_refl)
+                          (proj1 w_late_ok) (proj2 w_late_ok)).
+  vm_compute in H. discriminate.
+Qed.
+
+(* the same rows, the same request, two stored layouts, two answers *)
+Theorem chunking_dependence_witness :
+  all_rows w_late = all_rows w_early /\
+  get_array_abs w_late (Some (0, 10)) FC (fun _ => true) None None =
+    Ok (row_fields, [[1; 3; 0; 0]; [4; 6; 1; 1]]) /\
+  get_array_abs w_early (Some (0, 10)) FC (fun _ => true) None None =
+    Ok (row_fields, [[1; 3; 0; 0]; [4; 6; 1; 1]; [10; 10; 2; 0]]) /\
+  select_full w_late (Some (0, 10)) FC (fun _ => true) None None =
+    Ok (row_fields, [[1; 3; 0; 0]; [4; 6; 1; 1]; [10; 10; 2; 0]]) /\
+  (* and an error instead of the row when the range is the single instant *)
+  get_array_abs w_late (Some (10, 10)) FC (fun _ => true) None None = Err E_NO_CHUNK /\
+  select_full w_late (Some (10, 10)) FC (fun _ => true) None None = Ok (row_fields, [[10; 10; 2; 0]]).
+Proof. repeat split; vm_compute; reflexivity. Qed.
+
+(* the hypotheses of the partial theorem are satisfiable on a non-trivial request:
+   range (3, 13) cuts both chunks, the zero-length row is inside, rows 0 and 3 are excluded *)
+Example partial_hypotheses_hold :
+  Forall wf w_late /\ contig w_late /\ no_lost_row FC 3 13 (fun _ => true) w_late /\
+  forallb (pruned 3 13) w_late = false /\
+  get_array_abs w_late (Some (3, 13)) FC (fun _ => true) None None =
+    Ok (row_fields, [[4; 6; 1; 1]; [10; 10; 2; 0]]).
+Proof.
+  split; [exact (proj1 w_late_ok)|]. split; [exact (proj2 w_late_ok)|]. split.
+  - intros c r Hc Hr. cbn in Hc. destruct Hc as [<-|[<-|[]]]; cbn in Hr;
+      repeat (destruct Hr as [<-|Hr]; [vm_compute; reflexivity|]); destruct Hr.
+  - split; vm_compute; reflexivity.
+Qed.
+
+(* two same-kind targets stored with different chunk boundaries, rows [1,3) [4,6) [13,15) [18,19):
+   the right edge 14 is straddled by [13,15) *)
+Definition w2_a : list chunk :=
+  [mkchunk 0 17 [mkrow 1 3 0 0; mkrow 4 6 1 1; mkrow 13 15 2 0] 1 1 (Some 7) 4;
+   mkchunk 17 20 [mkrow 18 19 3 1] 1 1 (Some 7) 4].
+Definition w2_b : list chunk :=
+  [mkchunk 0 12 [mkrow 1 3 100 10; mkrow 4 6 101 11] 2 1 (Some 7) 4;
+   mkchunk 12 20 [mkrow 13 15 102 10; mkrow 18 19 103 11] 2 1 (Some 7) 4].
+
+Definition same_kind (ra rb : list row) : Prop := map (fun r => (rt r, re r)) ra = map (fun r => (rt r, re r)) rb.
+Definition positive_rows (rs : list row) : Prop := Forall (fun r => rt r < re r) rs.
+Definition same_span (csa csb : list chunk) : Prop :=
+  match csa, csb with
+  | a :: _, b :: _ => cstart a = cstart b /\ last_end (cend a) (tl csa) = last_end (cend b) (tl csb)
+  | _, _ => False
+  end.
+
+(* even without zero-length rows and with positive-length chunks *)
+Definition full_multi_target_commutes : Prop :=
+  forall csa csb t0 t1 m p keep drop,
+    time_mode m -> Forall wf csa -> contig csa -> Forall wf csb -> contig csb ->
+    same_kind (all_rows csa) (all_rows csb) -> positive_rows (all_rows csa) -> same_span csa csb ->
+    Forall (fun c => cstart c < cend c) (csa ++ csb) ->
+    get_array2_abs csa csb (Some (t0, t1)) m p keep drop =
+    if forallb (pruned t0 t1) csa then Err E_EMPTY_INPUT
+    else select_full2 csa csb (Some (t0, t1)) m p keep drop.
+
+Theorem multi_target_commutes_refuted : ~ full_multi_target_commutes.
+Proof.
+  intros H.
+  assert (Ha : Forall wf w2_a /\ contig w2_a) by (split; [repeat constructor; wf_tac|cbn; auto]).
+  assert (Hb : Forall wf w2_b /\ contig w2_b) by (split; [repeat constructor; wf_tac|cbn; auto]).
+  specialize (H w2_a w2_b 5 14 Touching (fun _ => true) None None (or_intror eq_refl)
+                (proj1 Ha) (proj2 Ha) (proj1 Hb) (proj2 Hb)).
+  assert (H1 : same_kind (all_rows w2_a) (all_rows w2_b)) by reflexivity.
+  assert (H2 : positive_rows (all_rows w2_a)) by (repeat constructor; cbn; lia).
+  assert (H3 : same_span w2_a w2_b) by (cbn; auto).
+  assert (H4 : Forall (fun c => cstart c < cend c) (w2_a ++ w2_b)) by (repeat constructor; cbn; lia).
+  specialize (H H1 H2 H3 H4). vm_compute in H. discriminate.
+Qed.
+
+Theorem multi_target_witness :
+  get_array2_abs w2_a w2_b (Some (5, 14)) Touching (fun _ => true) None None = Err E_PREMATURE /\
+  select_full2 w2_a w2_b (Some (5, 14)) Touching (fun _ => true) None None =
+    Ok (pair_fields, [[4; 6; 1; 1; 101; 11]; [13; 15; 2; 0; 102; 10]]) /\
+  (* one unit further right nothing straddles the edge and the request succeeds *)
+  get_array2_abs w2_a w2_b (Some (5, 16)) Touching (fun _ => true) None None =
+    Ok (pair_fields, [[4; 6; 1; 1; 101; 11]; [13; 15; 2; 0; 102; 10]]).
+Proof. repeat split; vm_compute; reflexivity. Qed.
